@@ -423,3 +423,76 @@ func c01sstseqPhase(r *Run, rng *Rng, n int) {
 		c01sstseq(r, a, b)
 	}
 }
+
+// c01styleseq: SetCellInt and SetCellStyle (rectangles) in order on a new worksheet against SaveBook.styleRect.
+// Two styles are created first; their ids (1 and 2 on a new file) are the ones used in the spec.
+func c01styleseq(r *Run, spec string) {
+	w := strings.Fields(spec)
+	res := "bad-op"
+	func() {
+		defer func() {
+			if recover() != nil {
+				res = "PANIC"
+			}
+		}()
+		n, err := strconv.Atoi(w[0])
+		if err != nil || len(w) != 1+6*n {
+			return
+		}
+		f := xl.NewFile()
+		defer f.Close()
+		for _, b := range []bool{true, false} {
+			_, _ = f.NewStyle(&xl.Style{Font: &xl.Font{Bold: b, Italic: !b}})
+		}
+		for k := 0; k < n; k++ {
+			q := w[1+6*k : 7+6*k]
+			a, _ := strconv.Atoi(q[1])
+			b, _ := strconv.Atoi(q[2])
+			c, _ := strconv.Atoi(q[3])
+			d, _ := strconv.Atoi(q[4])
+			e, _ := strconv.ParseInt(q[5], 10, 64)
+			c1, _ := xl.CoordinatesToCellName(a+1, b+1)
+			var er error
+			if q[0] == "p" {
+				er = f.SetCellInt("Sheet1", c1, e)
+			} else {
+				c2, _ := xl.CoordinatesToCellName(c+1, d+1)
+				er = f.SetCellStyle("Sheet1", c1, c2, int(e))
+			}
+			if er != nil {
+				res = "ERR"
+				return
+			}
+		}
+		res = xl.VerifC01Rows(f, "Sheet1")
+	}()
+	ln := r.Op("styleseq "+spec, res)
+	r.Case("styleseq:"+spec, true)
+	r.Stat("styleseq")
+	if rows, ok := c01parse(res); ok {
+		if _, dense := c01denseAbs(rows); !dense {
+			r.Fail("styleseq:not-dense", "worksheet not dense after cell writes and rectangle styles", ln, "styleseq "+spec)
+		}
+	}
+}
+
+func c01styleseqPhase(r *Run, rng *Rng, n int) {
+	c01styleseq(r, "0")
+	c01styleseq(r, "3 p 1 1 0 0 5 s 0 0 2 2 1 p 3 0 0 0 7")
+	c01styleseq(r, "2 s 1 1 2 3 2 s 0 0 0 0 0")
+	for k := 0; k < n; k++ {
+		m := rng.Range(1, 6)
+		var b strings.Builder
+		b.WriteString(strconv.Itoa(m))
+		for q := 0; q < m; q++ {
+			if rng.Chance(45) {
+				fmt.Fprintf(&b, " p %d %d 0 0 %d", rng.Intn(6), rng.Intn(6), rng.Intn(100))
+			} else {
+				j1, i1 := rng.Intn(6), rng.Intn(6)
+				j2, i2 := j1+rng.Intn(4), i1+rng.Intn(4)
+				fmt.Fprintf(&b, " s %d %d %d %d %d", j1, i1, j2, i2, rng.Intn(3))
+			}
+		}
+		c01styleseq(r, b.String())
+	}
+}
